@@ -500,3 +500,86 @@ pub fn run_writer(j: &Value, t: &mut Trace, run_id: usize) -> Option<(Vec<u8>, V
     let whole_v = whole.to_vec();
     matches!(fin, Ok(Ok(()))).then_some((bytes, whole_v))
 }
+
+// ---------------------------------------------------------------------------------------------
+// growth: OptionsLayout histories on the real Options builder + sample writer
+
+fn layout_tags(bytes: &[u8]) -> Result<(Vec<Value>, usize), String> {
+    use flac_codec::metadata::BlockRef::*;
+    let mut cur = std::io::Cursor::new(bytes);
+    let list = flac_codec::metadata::BlockList::read(&mut cur).map_err(|e| e.to_string())?;
+    let tags = list.blocks().filter_map(|b| Some(match b {
+        Padding(p) => json!(["padding", u32::from(p.size) as i64]),
+        Application(a) => json!(["application", a.id as i64]),
+        VorbisComment(c) => json!(["comment", c.fields.len() as i64]),
+        SeekTable(s) => json!(["seektable", s.points.len() as i64]),
+        Picture(p) => json!(["picture", p.width as i64]),
+        Cuesheet(_) => json!(["cuesheet", 0]),
+        Streaminfo(_) => return None,
+    })).collect();
+    Ok((tags, cur.position() as usize))
+}
+
+pub fn run_options(job: &Value, t: &mut Trace) -> usize {
+    use flac_codec::metadata::{Application, Padding, Picture, PictureType, VorbisComment};
+    let mut n = 0;
+    let bs = 16u16;
+    for (hi, h) in job["histories"].as_array().unwrap().iter().enumerate() {
+        for fr in job["frames"].as_array().unwrap() {
+            let frames = fr.as_u64().unwrap();
+            for declared in [false, true] {
+                n += 1;
+                let ops = h["ops"].as_array().unwrap();
+                flac_codec::verif::install();
+                let cur = SharedBuf::with_prefix(vec![]);
+                let mut ev = json!({"ev": "opt", "id": hi as i64, "ops": ops, "declared": declared, "frames": frames as i64, "prov": [], "final": [],
+                    "branch": "", "len_after_new": -1, "audio_start": -2, "ret": "ok", "msg": ""});
+                let r = catch(|| -> Result<(), String> {
+                    let mut o = Options::default().block_size(bs).map_err(|e| e.to_string())?;
+                    for op in ops {
+                        let nn = op["n"].as_u64().unwrap_or(0);
+                        o = match op["op"].as_str().unwrap() {
+                            "padding" => o.padding(nn as u32).map_err(|e| e.to_string())?,
+                            "no_padding" => o.no_padding(),
+                            "tag" => o.tag("TITLE", "x"),
+                            "comment" => o.comment(VorbisComment { vendor_string: "v".into(), fields: (0..nn).map(|i| format!("K{i}=v")).collect() }),
+                            "picture" => o.picture(Picture { picture_type: PictureType::Other, media_type: "image/png".into(), description: String::new(),
+                                width: nn as u32, height: 1, color_depth: 8, colors_used: None, data: vec![1, 2, 3] }),
+                            "application" => o.application(Application { id: nn as u32, data: vec![7] }),
+                            "add_padding" => { o.add_block(Padding { size: (nn as u32).try_into().map_err(|_| "padding size")? }); o }
+                            "frames" => o.seektable_frames(nn as usize),
+                            "seconds" => o.seektable_seconds(nn as u8),
+                            _ => o.no_seektable(),
+                        };
+                    }
+                    let total = if declared { Some(frames * bs as u64) } else { None };
+                    let mut w = FlacSampleWriter::new(cur.clone(), o, bs as u32, 16, 1, total).map_err(|e| e.to_string())?;
+                    let after_new = cur.snapshot();
+                    let (prov, _) = layout_tags(&after_new)?;
+                    ev["prov"] = json!(prov);
+                    ev["len_after_new"] = json!(after_new.len() as i64);
+                    let pcm: Vec<i32> = (0..frames * bs as u64).map(|i| ((i * 7919) % 200) as i32 - 100).collect();
+                    w.write(&pcm).map_err(|e| e.to_string())?;
+                    w.finalize().map_err(|e| e.to_string())?;
+                    let fin = cur.snapshot();
+                    let (f, start) = layout_tags(&fin)?;
+                    ev["final"] = json!(f);
+                    ev["audio_start"] = json!(start as i64);
+                    Ok(())
+                });
+                for e in flac_codec::verif::take() {
+                    if let flac_codec::verif::Event::FinalizeBranch { branch } = e {
+                        ev["branch"] = json!(branch);
+                    }
+                }
+                match r {
+                    Ok(Ok(())) => {}
+                    Ok(Err(m)) => { ev["ret"] = json!("err"); ev["msg"] = json!(m); }
+                    Err(c) => { ev["ret"] = json!("panic"); ev["msg"] = json!(c.msg); }
+                }
+                t.emit(ev);
+            }
+        }
+    }
+    n
+}
